@@ -177,7 +177,18 @@ def c09b(prog, R):
         ok = ok or any("expired" == x for x in g)
     defs = [hir_expr_str(n["init"], 200) for n in hir_walk(sm.drain_body) if n.get("k") == "let" and n["pat"].get("k") == "bind"
             and n["pat"]["n"] == "expired"]
-    r.check(ok and defs == ["(kv.key.user_key == key)"], "%s|drain_key reports exactly the drained entries" % sm.drain_path,
+    # the predicate's answer for an Ok entry is that very variable: reported <=> drained (whatever `expired` is defined as; which
+    # entries may be drained is the business of C02.f / C13.d)
+    returned = False
+    for n in hir_walk(sm.drain_body):
+        if n.get("k") == "closure":
+            b = n["b"]
+            while isinstance(b, dict) and b.get("k") == "blockx" and not b["b"].get("s") and "e" in b["b"]:
+                b = b["b"]["e"]
+            if isinstance(b, dict) and b.get("k") == "if" and isinstance(b.get("t"), dict) and b["t"].get("k") == "blockx":
+                tail = b["t"]["b"].get("e")
+                returned = tail is not None and hir_expr_str(tail) == "expired"
+    r.check(ok and returned and len(defs) == 1 and "kv.key.user_key == key" in defs[0], "%s|drain_key reports exactly the drained entries" % sm.drain_path,
             "drain_key no longer calls on_dropped for every entry it removes (older versions' blobs leak from the accounting)",
             "", "expired := %s" % defs)
     # merge_tables installs the callback whenever kv separation is on
